@@ -7,7 +7,7 @@ WT=$1; PATCH=$2; PROP=$3; TIER=${4:-quick}
 git -C "$WT" checkout -q -- . 2>/dev/null
 git -C "$WT" checkout -q --detach "$(git -C /repo rev-parse HEAD)" || exit 2
 git -C "$WT" apply "$PATCH" || { echo "patch does not apply"; exit 2; }
-cd /verif
+cd "$(dirname "$0")/.." || exit 2
 out=$(VERIF_REPO="$WT" VERIF_NO_EVIDENCE=1 ./check "$PROP" "$TIER" 2>&1); rc=$?
 echo "$out" | grep -E "^(VIOLATION|violation:|KNOWN|C[0-9]+ (quick|thorough):|check:)" | cut -c1-400
 echo "exit=$rc"
